@@ -39,8 +39,11 @@ def run_cases(ctx, mod, shard, sample=None):
         elif idx % n != i:
             continue
         ctx.current_case = case
+        tty = bool(((idx * 2654435761) >> 9) & 1)      # half of the cases run with a terminal-like stdout
+        ctx.hit('stdout:terminal-like' if tty else 'stdout:captured')
+        ctx.case_tty = tty
         try:
-            with core.quiet():
+            with core.quiet(tty=tty):
                 mod.run_case(ctx, case)
         except KeyboardInterrupt:
             raise
@@ -82,8 +85,9 @@ def main(argv=None):
         mod.setup(ctx)
         ctx.current_case = data['case']
         ctx.count('evaluations', 0)
+        ctx.case_tty = bool(data.get('tty', False))
         try:
-            with core.quiet():
+            with core.quiet(tty=ctx.case_tty):
                 mod.run_case(ctx, data['case'])
         except BaseException as exc:  # noqa
             ctx.violation(f'unexpected-exception:{type(exc).__name__}',
